@@ -92,6 +92,11 @@ def p2sh_plain(draw):
     redeem, _ = draw(G.grammar_script(profile='arith', max_ops=6))
     redeem = redeem[:200]
     args = [draw(G.small_values) for _ in range(draw(st.integers(0, 2)))]
+    if draw(st.integers(0, 4)) == 0:
+        # a redeem script that is ITSELF of the pay-to-script-hash shape: it runs as an ordinary script (one level only), the item below it is data
+        inner = draw(st.sampled_from([b'\x51', b'\x52\x53\x93', b'\x00', b'\x6a']))
+        redeem = b'\xa9\x14' + R.ripemd(R.sha256(inner)) + b'\x87'
+        args = args + [draw(st.sampled_from([inner, inner, b'\x01']))]
     return dict(kind='plain-p2sh', kw=dict(script=b'\xa9\x14' + R.ripemd(R.sha256(redeem)) + b'\x87', stack=args + [redeem], flags=STD & ~F['CLEANSTACK'], sv=R.BASE))
 
 
